@@ -123,6 +123,15 @@ _uamiv_paths = []
 
 
 def uamiv_spec(spec):
+    us = _uamiv_spec(spec)
+    if spec['nz'] == 1 and spec['seed'] % 3 == 0:
+        # a surface file as the emissions preprocessors write it: one layer
+        # of records, nz = 0 in the grid header
+        us['hdr_nz'] = 0
+    return us
+
+
+def _uamiv_spec(spec):
     return {'fmt': 'uamiv', 'nx': spec['nx'], 'ny': spec['ny'],
             'nz': spec['nz'], 'nt': spec['nt'], 'names': list(spec['names']),
             'sdate': spec['sdate'], 'shour': spec['stime'] // 10000,
